@@ -3,7 +3,7 @@
     extracted inductive types.  Run in the directory where model.ml should land. *)
 From Coq Require Import ExtrOcamlBasic.
 From Rsbdd Require Import Core.Bdd Core.Ops Check.Prog Check.Checkers.
-From Rsbdd Require Import Env.Heap.
+From Rsbdd Require Import Env.Heap Io.DotBdd Io.DotTree.
 From Rsbdd Require Import Lang.Ast Lang.Eval Syntax.Token Syntax.Lexer Syntax.Tokenize Syntax.Parser Cli.Table Cli.TableFilter Cli.Pipeline.
 Extraction Language OCaml.
 Extraction "model.ml"
@@ -13,4 +13,5 @@ Extraction "model.ml"
   rebuild_lit build_tt run run_infer
   verdict_fun verdict_model verdict_retain verdict_infer find_diff
   lex_raw tokenize parse eval_f parsed_formula parsed_of_tokens ident_names name_table name_of ordering_of_file cli
-  set_run set_ref h_new h_mk_choice h_mk_const.
+  set_run set_ref h_new h_mk_choice h_mk_const
+  dot_nodes dot_edges subterms label out_edges rebuild.
